@@ -328,6 +328,19 @@ theorem getServicePID_known (d : Dir) (hd : d.Ok) (n : String) (h : Known d.ms n
   · exact absurd h h1.2
   · exact h2
 
+/-- decidable route to `¬ Known` / `Known` for concrete views -/
+theorem not_known_of_lookup_none (d : Dir) (hd : d.Ok) (n : String) (h : getServicePID d n = none) :
+    ¬ Known d.ms n := by
+  rcases getServicePID_cases d hd n with h1 | ⟨pid, h2, _⟩
+  · exact h1.2
+  · rw [h] at h2; cases h2
+
+theorem known_of_lookup_some (d : Dir) (hd : d.Ok) (n : String) (pid : Pid) (h : getServicePID d n = some pid) :
+    Named d.ms n pid := by
+  rcases getServicePID_cases d hd n with h1 | ⟨pid', h2, hN⟩
+  · rw [h] at h1; cases h1.1
+  · rw [h] at h2; cases h2; exact hN
+
 theorem not_known_empty (ms : List Member) : ¬ Known ms "" := by
   rintro ⟨pid, t, st, m, _, s, _, hw, _⟩
   exact (wellFormed_ne _ _ _ hw).2 rfl
@@ -514,5 +527,76 @@ theorem splitClientRoute_malformed (r : String) (h : (splitDots r).length ≠ 3)
 theorem splitClientRoute_wellformed (r a b c : String) (h : splitDots r = [a, b, c]) :
     splitClientRoute r = (a, b, c) := by
   unfold splitClientRoute; rw [h]
+
+/-! ### Route returns what the rule names -/
+
+theorem route_viaFunc (R : Rules) (d : Dir) (t : String) (p : Param) (fp : FParam)
+    (h : p.viaFunc = some fp) : route R d t p = doRoute R d t fp := by
+  cases p <;> simp [Param.viaFunc] at h <;> subst h <;> rfl
+
+theorem route_names (R : Rules) (d : Dir) (t : String) (p : Param) (n : String)
+    (h : RuleNames R t p n) : route R d t p = n := by
+  cases h with
+  | explicit => rfl
+  | const hl hv => rw [route_viaFunc R d t p _ hv]; simp [doRoute, hl, applyBeh]
+  | key hl hk hg =>
+    rename_i l k
+    have hv : p.viaFunc = some (.kvs l) := by
+      cases p <;> simp [Param.kvs?] at hk <;> subst hk <;> rfl
+    rw [route_viaFunc R d t p _ hv]; simp [doRoute, hl, applyBeh, hg]
+
+/-- `RoutePID` for a rule that names `n ≠ ""` is the directory lookup of `n` -/
+theorem routePID_names (R : Rules) (d : Dir) (t : String) (p : Param) (n : String)
+    (h : RuleNames R t p n) (hne : n ≠ "") : routePID R d t p = getServicePID d n := by
+  simp [routePID, route_names R d t p n h, hne]
+
+
+/-! ### failing rules -/
+
+theorem sentinels_ne : noService ≠ "" ∧ badRouteParam ≠ "" ∧ missRouteFunc ≠ "" := by decide
+
+/-- every failing rule makes `RoutePID` nil (guard: no instance carries a sentinel name) -/
+theorem routePID_fails (R : Rules) (d : Dir) (hd : d.Ok) (t : String) (p : Param)
+    (hg : NoSentinelNames d.ms) (hf : RuleFails R d.ms t p) : routePID R d t p = none := by
+  obtain ⟨g1, g2, g3⟩ := hg
+  cases hf with
+  | emptyName hn => simp [routePID, route_names R d t p "" hn]
+  | unknownName hn hk =>
+    rename_i n
+    by_cases hne : n = ""
+    · subst hne; simp [routePID, route_names R d t p "" hn]
+    · rw [routePID_names R d t p n hn hne]; exact getServicePID_none d hd n hk
+  | emptyFunc hl hv => simp [routePID, route_viaFunc R d t p _ hv, doRoute, hl, applyBeh]
+  | funcPanics hl hv hp => simp [routePID, route_viaFunc R d t p _ hv, doRoute, hl, hp]
+  | keyAbsent hl hk hgk =>
+    rename_i l k
+    have hv : p.viaFunc = some (.kvs l) := by
+      cases p <;> simp [Param.kvs?] at hk <;> subst hk <;> rfl
+    simp [routePID, route_viaFunc R d t p _ hv, doRoute, hl, applyBeh, hgk]
+  | badParam =>
+    simp only [routePID, route, sentinels_ne.2.1, if_false]
+    exact getServicePID_none d hd _ g2
+  | noWorkingInstance hl hv hdf hno =>
+    rcases defaultRoute_cases d t with ⟨he, _⟩ | ⟨n, _, hfw⟩
+    · simp only [routePID, route_viaFunc R d t p _ hv, doRoute, hl, hdf, he, sentinels_ne.1, if_true, if_false]
+      exact getServicePID_none d hd _ g1
+    · obtain ⟨_, pid, hi⟩ := firstWorking_instance d.ms t n hfw
+      exact absurd ⟨n, pid, hi⟩ hno
+  | noFunction hl hv hdf =>
+    simp only [routePID, route_viaFunc R d t p _ hv, doRoute, hl, hdf, Bool.false_eq_true, if_false,
+      sentinels_ne.2.2]
+    exact getServicePID_none d hd _ g3
+
+
+/-! ### histories -/
+
+def isView : Op → Bool
+  | .view _ _ => true
+  | _ => false
+
+/-- calls and rule registrations never touch the directory … -/
+theorem step_keeps_dir (s : St) (op : Op) (h : isView op = false) : (step s op).1.dir = s.dir := by
+  cases op <;> simp [isView] at h <;> rfl
+
 
 end Cell2v.Route
